@@ -106,6 +106,9 @@ StrNum == ("42" :> "i42") @@ ("1.5" :> "f1p5") @@ ("4294967297" :> "i2p32p1")
 BoolStr == ("true" :> TRUE)
 T1 == "2020-01-02T03:04:05Z"
 ValidTimes == {T1}
+\* strings Go's time.Parse accepts although they are no RFC 3339 date-times (hour not padded, decimal comma): a resolver
+\* value that is not representable as it is; it may be refused or normalised, it must not appear in the response as written
+LenientTimes == {"2021-03-04T5:06:07Z", "2021-03-04T05:06:07,25Z"}
 \* seconds since the epoch -> the time (times are named by their RFC 3339 UTC text)
 SecsTime == [ i0 |-> "1970-01-01T00:00:00Z", i42 |-> "1970-01-01T00:00:42Z" ]
 
@@ -497,7 +500,7 @@ LeafOut(S, n, gv) ==
          ELSE ErrJ
     [] n = "Time" ->                       \* an RFC 3339 string
          IF gv.k = "time" THEN Str(gv.s)
-         ELSE IF gv.k = "str" THEN (IF gv.s \in ValidTimes THEN Str(gv.s) ELSE ErrJ)
+         ELSE IF gv.k = "str" THEN (IF gv.s \in ValidTimes THEN Str(gv.s) ELSE IF gv.s \in LenientTimes THEN MayJ(AnyTime) ELSE ErrJ)
          ELSE IF gv.k = "num" THEN MayJ(AnyTime)
          ELSE ErrJ
     [] OTHER ->                            \* enum: the name of a declared value
@@ -583,7 +586,7 @@ LeafCoOut(S, n, gv, dv) ==
          ELSE ErrJ
     [] n = "Time" ->
          IF gv.k = "time" THEN Str(gv.s)
-         ELSE IF gv.k = "str" THEN (IF gv.s \in ValidTimes THEN Str(gv.s) ELSE ParseFail(gv, dv))
+         ELSE IF gv.k = "str" THEN (IF gv.s \in ValidTimes THEN Str(gv.s) ELSE IF gv.s \in LenientTimes THEN AnyTime ELSE ParseFail(gv, dv))
          ELSE IF gv.k = "num" /\ gv.g \in {"float64", "int64"} THEN AnyTime
          ELSE ErrJ
     [] OTHER ->
